@@ -155,6 +155,10 @@ def string_enum(rng, nvariants=None, *, allow_default=True, allow_disabled=True,
                     fn = {"u8": "dw_u8_b", "i32": "dw_i32", "bool": "dw_bool", "String": "dw_string", "usize": "dw_usize"}.get(f.ty)
                     if fn and rng.random() < 0.6:
                         f.dws = [fn]
+        # how a literal is WRITTEN does not matter, only what it denotes: some are spelled with \u{..} escapes or as raw strings
+        for m in ms:
+            if m.kind in ("ser", "tos") and rng.random() < 0.2:
+                m.style = rng.choice(["uesc", "raw"])
         rng.shuffle(ms)
         v.metas = ms
         if len(ms) >= 2 and rng.random() < 0.4:
